@@ -42,6 +42,13 @@ for d in w9:
     m = json.load(open(os.path.join(HERE, 'seeded', d, 'meta.json')))
     h0 = (m.get('check_history') or [{}])[0].get('checks', {})
     w9first += any(v['caught'] for v in h0.values())
+w10 = [d for d in seeded if '-w10' in d]
+w10first = 0
+for d in w10:
+    m = json.load(open(os.path.join(HERE, 'seeded', d, 'meta.json')))
+    h0 = (m.get('check_history') or [{}])[0].get('checks', {})
+    w10first += any(v['caught'] for v in h0.values())
+extra = extra.replace('@@W10FIRST@@', str(w10first))
 extra = extra.replace('@@W9N@@', str(len(w9all))).replace('@@W9FIRST@@', str(w9first))
 sec = extra.replace('@@FIXES@@', fixes).replace('@@TABLE@@', table).replace('@@NSEEDED@@', str(len(seeded))).replace('@@NFIRST@@', str(ncaught_first))
 p = os.path.join(HERE, 'DESIGN.md')
